@@ -69,6 +69,8 @@ let () =
     exit (Sys.command cmd)
   end
 
+let seen_exponents : (int, unit) Hashtbl.t = Hashtbl.create 600
+
 let () =
   let path = Sys.argv.(1) in
   let samples = ref 0 in
@@ -87,6 +89,12 @@ let () =
       let lattice = has flags "lattice" and valid = has flags "valid" in
       let base = List.hd groups in
       note_case base.dump (not (is_empty base.g));
+      (* exact measures of the base, for the rescaled variants *)
+      let base_model = lazy (
+        let g = base.g in
+        (geom_area false None g, geom_area true None g,
+         unscale (geom_length sqrt_lo_scaled g), unscale (geom_length sqrt_hi_scaled g),
+         centroid_outcome sqrt_lo_scaled g)) in
       let failc kind name detail = fail id kind name (trunc detail) in
       (* ---------------- per group: model vs implementation, and the per-geometry statements *)
       let check_group (gr : grp) =
@@ -177,6 +185,26 @@ let () =
                | Some x, Some y -> if not (qeq_bool x q0 && qeq_bool y q0) then failc "SPEC" (nm "empty_measures") gr.dump
                | _ -> ())
             end else if o.c = "E" then failc "SPEC" (nm "nonempty_centroid_empty") gr.dump;
+            (* independent oracle for geometries whose non-empty parts are all points: the plain
+               average of every non-empty point, gathered from the dump (not through the model) *)
+            if not empty && int_of_nat (hdim g) = 0 then begin
+              let rec pts g = match g with
+                | GPoint (MkPoint (_, Some v)) -> [v]
+                | GMPoint (_, ps) -> List.concat_map (function MkPoint (_, Some v) -> [v] | _ -> []) ps
+                | GColl (_, gs) -> List.concat_map pts gs
+                | _ -> [] in
+              let ps = pts g in
+              let n = List.length ps in
+              if n > 0 then begin
+                count "oracle_point_average";
+                let sx = List.fold_left (fun a v -> a +/ v.vx) q0 ps and sy = List.fold_left (fun a v -> a +/ v.vy) q0 ps in
+                let ex = (qdiv sx (q_of_int n), qdiv sy (q_of_int n)) in
+                (match o.cxy with
+                 | Some c -> if not (xy_close c ex (e9 */ mag)) then
+                     failc "SPEC" (nm "point_average") (Printf.sprintf "impl=(%s,%s) average of the %d points=(%s,%s) %s" (qs (fst c)) (qs (snd c)) n (qs (fst ex)) (qs (snd ex)) gr.dump)
+                 | None -> ())
+              end
+            end;
             (* additivity over members *)
             (match o.a, o.adda with
              | Some x, Some y -> if not (q_close x y (atol +/ atol)) then failc "SPEC" (nm "area_additive") (Printf.sprintf "%s vs %s %s" (qs x) (qs y) gr.dump)
@@ -264,7 +292,7 @@ let () =
          and three variants; the relations below still use the outputs of every variant *)
       List.iter (fun (gr : grp) ->
           let k = List.hd (String.split_on_char ':' gr.tag) in
-          if k = "sc" then ()   (* extreme magnitudes: only the scaling relations below *)
+          if k = "sc" || k = "sm" then ()   (* rescaled by 2^k: judged against the base below *)
           else if lattice || k = "base" || k = "rot" || k = "rev" || k = "tr" then check_group gr) groups;
       (* ---------------- relations between the base and its variants *)
       if valid && base.finite then begin
@@ -317,15 +345,21 @@ let () =
                          failc "CORR" "translate_structure" d
                      | _ -> ())
                   | _ -> ())
-               | "sc" ->
-                 (* ordinates times 2^k, |k| > 512: squares of ordinates are not representable, lengths
-                    and centroids are.  Length and Centroid must be 2^k times those of the base. *)
+               | "sc" | "sm" ->
+                 (* "sc": ordinates times 2^k, |k| > 512: squares of ordinates are not representable,
+                    lengths and centroids are.  Length and Centroid must be 2^k times those of the base.
+                    "sm": 1 <= |k| <= 300, every intermediate of the implementation stays in range:
+                    Area, Length and Centroid must in addition be the exact measures of the base (the
+                    model's, theorems area_scale_equivariant / length_scale_equivariant /
+                    centroid_scale_equivariant) times 4^k, 2^k, 2^k, to within rounding relative to
+                    the magnitude of the scaled ordinates. *)
                  (match String.split_on_char ':' v.tag with
                   | [_; ks] ->
                     let k = int_of_string ks in
                     let p2 = Z.pow_pos (Zpos (XO XH)) (pos_of_int (abs k)) in
                     let f = if k > 0 then inject_Z p2 else qinv (inject_Z p2) in
-                    count "scale_variants";
+                    let moderate = (kind = "sm") in
+                    count (if moderate then "rescaled_variants" else "scale_variants");
                     (match b.l, o.l with
                      | Some lb, Some lv ->
                        if not (q_close lv (lb */ f) (e12 */ (lb */ f))) then
@@ -338,7 +372,57 @@ let () =
                           if not (xy_close (xy_scale p f) q (e9 */ (mag */ f))) then
                             failc "SPEC" "centroid_scale" (Printf.sprintf "k=%d base=(%s,%s) variant/2^k=(%s,%s) %s" k (qs (fst p)) (qs (snd p)) (qs (qdiv (fst q) f)) (qs (qdiv (snd q) f)) v.dump)
                         | None, None -> if b.c <> o.c then failc "SPEC" "centroid_scale" (b.c ^ " vs " ^ o.c ^ " " ^ v.dump)
-                        | _ -> failc "SPEC" "centroid_scale" (Printf.sprintf "k=%d base %s variant %s %s" k b.c o.c v.dump))
+                        | _ -> failc "SPEC" "centroid_scale" (Printf.sprintf "k=%d base %s variant %s %s" k b.c o.c v.dump));
+                    if moderate then begin
+                      if not (Hashtbl.mem seen_exponents k) then begin
+                        Hashtbl.add seen_exponents k (); count "rescaled_distinct_exponents" end;
+                      if is_empty base.g then count "rescaled_empty"
+                      else count (Printf.sprintf "rescaled_hdim%d" (int_of_nat (hdim base.g)));
+                      let unk x = qs (qdiv x f) and unk2 x = qs (qdiv x (f */ f)) in
+                      let magf = mag */ f in
+                      let f2 = f */ f in
+                      (* the harness really scaled every X and Y by 2^k (Z/M are free) *)
+                      if not (geom_2d (geom_map qred (geom_tr (scale f) base.g)) = geom_2d v.g) then
+                        failc "CORR" "rescale_structure" d;
+                      if o.disp <> "ok" then failc "SPEC" "concrete_vs_geometry" (Printf.sprintf "k=%d %s %s" k o.disp v.dump);
+                      (* Area: relation on the implementation's outputs, then against the exact model *)
+                      let a_rel = e9 */ (magf */ magf) and a_mod = e12 */ (magf */ magf) in
+                      (match b.a, o.a, b.s, o.s with
+                       | Some ab, Some av, Some sb, Some sv ->
+                         if not (q_close av (ab */ f2) a_rel) then
+                           failc "SPEC" "area_scale" (Printf.sprintf "k=%d base=%s variant/4^k=%s %s" k (qs ab) (unk2 av) v.dump);
+                         if not (q_close sv (sb */ f2) a_rel) then
+                           failc "SPEC" "signed_area_scale" (Printf.sprintf "k=%d base=%s variant/4^k=%s %s" k (qs sb) (unk2 sv) v.dump);
+                         let (ma, ms, _, _, _) = Lazy.force base_model in
+                         if not (q_close av (ma */ f2) a_mod) then
+                           failc "CORR" "area_rescaled" (Printf.sprintf "k=%d impl/4^k=%s model=%s %s" k (unk2 av) (qs ma) v.dump);
+                         if not (q_close sv (ms */ f2) a_mod) then
+                           failc "CORR" "signed_area_rescaled" (Printf.sprintf "k=%d impl/4^k=%s model=%s %s" k (unk2 sv) (qs ms) v.dump)
+                       | _ -> failc "SPEC" "nan_area_scale" (Printf.sprintf "k=%d %s" k v.dump));
+                      (match o.a, o.adda, o.l, o.addl with
+                       | Some x, Some y, Some l, Some ly ->
+                         if not (q_close x y a_rel) then failc "SPEC" "area_additive" (Printf.sprintf "k=%d %s vs %s %s" k (unk2 x) (unk2 y) v.dump);
+                         if not (q_close l ly (e9 */ (qabs l +/ magf))) then failc "SPEC" "length_additive" (Printf.sprintf "k=%d %s vs %s %s" k (unk l) (unk ly) v.dump)
+                       | _ -> failc "SPEC" "nan_members" (Printf.sprintf "k=%d %s" k v.dump));
+                      let (_, _, l_lo, l_hi, mc) = Lazy.force base_model in
+                      (* Length against the bracketed exact length *)
+                      (match o.l with
+                       | Some lv ->
+                         if not (q_between (l_lo */ f) lv (l_hi */ f) (e12 */ ((l_hi */ f) +/ magf))) then
+                           failc "CORR" "length_rescaled" (Printf.sprintf "k=%d impl/2^k=%s model=[%s,%s] %s" k (unk lv) (qs l_lo) (qs l_hi) v.dump)
+                       | None -> ());
+                      (* Centroid against the exact centre of mass *)
+                      (match mc, o.c with
+                       | CRes None, "E" -> ()
+                       | CRes (Some m), _ when o.cxy <> None ->
+                         (match o.cxy with
+                          | Some c ->
+                            if not (xy_close c (xy_scale (xy_red m) f) (e12 */ magf)) then
+                              failc "CORR" "centroid_rescaled"
+                                (Printf.sprintf "k=%d impl/2^k=(%s,%s) exact=(%s,%s) %s" k (unk (fst c)) (unk (snd c)) (qs (fst m)) (qs (snd m)) v.dump)
+                          | None -> ())
+                       | _ -> if not o.cnan then failc "CORR" "centroid_rescaled" (Printf.sprintf "k=%d impl %s %s" k o.c v.dump))
+                    end
                   | _ -> ())
                | _ -> ())
             end) groups
